@@ -383,7 +383,7 @@ func runC07(env *vk.Env) {
 	// leg B
 	rng := newRand(env.Seed, "c07b")
 	var rs []frameScenario
-	nstreams := env.Pick(40, 400)
+	nstreams := env.Pick(40, 2500)
 	for i := 0; i < nstreams; i++ {
 		thr := []int{-1, 0, 1, 2, 63, 64, 65, 256, 1000, 2097152}[rng.Intn(10)]
 		if rng.Intn(5) == 0 {
@@ -424,7 +424,13 @@ func runC07(env *vk.Env) {
 		}
 		rs = append(rs, sc)
 	}
-	frameJudge(env, rs, "B random streams")
+	for i := 0; i < len(rs); i += 250 {
+		j := i + 250
+		if j > len(rs) {
+			j = len(rs)
+		}
+		frameJudge(env, rs[i:j], fmt.Sprintf("B random streams %d..%d", i, j))
+	}
 	env.Sample(map[string]any{"stream": rs[0].ID, "thr": rs[0].Thr, "first": rs[0].St[0]})
 }
 
